@@ -214,7 +214,11 @@ func (h *vfE2Pump) quiesce(what string, cond func() bool) bool {
 		time.Sleep(500 * time.Microsecond)
 	}
 	idle, why := vfE2PumpsIdle()
-	h.fail("settle", "pump leg: no quiescence after %s (books: rdy=%d in_flight=%d paused=%v published=%d; client: ready_count=%d in_flight_count=%d message_count=%d; depth=%d idle=%v %s)",
+	key := "settle"
+	if int(atomic.LoadInt64(&h.cl.InFlightCount)) > h.infl {
+		key = "rdy" // the pump took a message although, by the harness's books, the consumer was not ready
+	}
+	h.fail(key, "pump leg: no quiescence after %s (books: rdy=%d in_flight=%d paused=%v published=%d; client: ready_count=%d in_flight_count=%d message_count=%d; depth=%d idle=%v %s)",
 		what, h.rdy, h.infl, h.paused, h.pubs, atomic.LoadInt64(&h.cl.ReadyCount), atomic.LoadInt64(&h.cl.InFlightCount),
 		atomic.LoadUint64(&h.cl.MessageCount), h.ch.Depth(), idle, why)
 	return false
@@ -397,7 +401,13 @@ func (h *vfE2Pump) episode() {
 	for i := 0; i < steps && h.fails < 5 && !h.dead; i++ {
 		h.nOps++
 		pending := h.pubs - int(atomic.LoadUint64(&h.cl.MessageCount))
-		switch k := h.r.Intn(12); {
+		k := h.r.Intn(12)
+		if i == 0 {
+			k = 3 // prologue: RDY n (n >= 2) …
+		} else if i == 1 {
+			k = 0 // … and one publish: a message written while the consumer stays ready (buffered / ticker)
+		}
+		switch {
 		case k < 3 || k >= 10: // publish one message
 			take := h.expectTaken(pending + 1)
 			want := int(atomic.LoadUint64(&h.cl.MessageCount)) + take
@@ -411,6 +421,9 @@ func (h *vfE2Pump) episode() {
 			nr := 1 + h.r.Intn(8)
 			if h.r.Intn(4) == 0 {
 				nr = 0
+			}
+			if i == 0 {
+				nr = 2 + h.r.Intn(6)
 			}
 			h.rdy = nr
 			take := h.expectTaken(pending)
